@@ -47,9 +47,10 @@ PROPS = {
         "not_covered": ["print-only `if !self.quiet {..}` blocks of finish are elided (R7)", "Runtime::run = start; dispatch_all; finish is not extracted (start contains macro_rules)"],
     },
     "C15": {
-        "bundles": [], "kani": ["allocarith"],
+        "bundles": [], "kani": ["allocarith"], "replay": True,
         "assumptions": [A_KANI, "only the placement arithmetic is under contract: align_up, alloc_from_region, size_align"],
-        "not_covered": ["free-list functions find_region/add_free_region/allocate/deallocate (&'static mut nodes written through int->ptr casts: Verus rejects, Kani ran out of memory), LocalBox, node ownership, drop-exactly-once of payloads, CQueue::drop order: no history-level claim (non-overlap over all histories, recycling) is made"],
+        "not_covered": ["BOUNDED only (replay/cq_driver, never counted as proved): every payload moved into a CQueue is returned bit for bit and dropped exactly once (fetch, cancel, queue drop with events pending), over all scripts up to the stated bound",
+                        "free-list functions find_region/add_free_region/allocate/deallocate (&'static mut nodes written through int->ptr casts: Verus rejects, Kani ran out of memory), LocalBox, node ownership, drop-exactly-once of payloads, CQueue::drop order: no history-level claim (non-overlap over all histories, recycling) is made"],
     },
     "C16": {
         "bundles": ["chanbuf"], "kani": ["body"],
@@ -59,7 +60,7 @@ PROPS = {
     },
     "C14": {
         "bundles": ["processor"],
-        "fns": {"processor": ["Processor::incoming_upstream", "Processor::incoming_downstream", "ProcessingState::bump_upstream", "ProcessingState::bump_downstream"]},
+        "fns": {"processor": ["Processor::incoming_upstream", "Processor::incoming_downstream", "ProcessingState::bump_upstream", "ProcessingState::bump_downstream", "ProcessingStack::append"]},
         "assumptions": ["the calls made on stack elements are recorded in a ghost log written right after each real call site (rewrite R4b, tied to the call statements of the real code); elements are arbitrary user code (no assumption on what incoming returns)",
                         "shim declarations: trait ProcessingElement (supertrait Any and default bodies dropped), opaque Message, trait Module"],
         "not_covered": ["that every ModuleRef entry point calls incoming_upstream -> handler -> incoming_downstream (net/module/refs.rs, net/runtime/events.rs: RefCell + tokio harness): read, not proved",
